@@ -42,8 +42,13 @@ lane() {
   build() {
     fallback=""
     if ! (cd "$G" && cargo build --release --offline --quiet 2>"$G/build.log"); then
-      (cd "$G" && cargo build --release --offline --quiet --no-default-features --features likelysubtags 2>"$G/build.log") || return 1
-      fallback=" [built without the Path wrappers]"
+      local ok=""
+      for feats in "likelysubtags" "path_shadow" ""; do
+        if (cd "$G" && cargo build --release --offline --quiet --no-default-features --features "$feats" 2>"$G/build.log"); then
+          ok=yes; fallback=" [fallback build: features='$feats']"; break
+        fi
+      done
+      [ -n "$ok" ] || return 1
     fi
     # real binaries: built from and run in a scratch copy of the lane's tree (as run.sh does)
     rm -f "$G/target/realbins/debug/generate_layout" "$G/target/realbins/debug/generate_likelysubtags"
